@@ -223,8 +223,12 @@ func (server *SugarDB) setValues(ctx context.Context, entries map[string]interfa
 
 	for key, value := range entries {
 		expireAt := time.Time{}
-		if _, ok := server.store[database][key]; ok {
-			expireAt = server.store[database][key].ExpireAt
+		if entry, ok := server.store[database][key]; ok {
+			// An overwritten key keeps its deadline, unless that deadline has already passed:
+			// an expired key is missing, and a value written afterwards does not inherit its deadline.
+			if !(entry.ExpireAt != (time.Time{}) && entry.ExpireAt.Before(server.clock.Now())) {
+				expireAt = entry.ExpireAt
+			}
 		}
 		server.store[database][key] = internal.KeyData{
 			Value:    value,
@@ -289,8 +293,13 @@ func (server *SugarDB) setExpiry(ctx context.Context, key string, expireAt time.
 func (server *SugarDB) deleteKey(ctx context.Context, key string) error {
 	database := ctx.Value("Database").(int)
 
+	// A key that is not stored has nothing to release.
+	data, ok := server.store[database][key]
+	if !ok {
+		return nil
+	}
+
 	// Deduct memory usage in tracker.
-	data := server.store[database][key]
 	mem, err := data.GetMem()
 	if err != nil {
 		return err
